@@ -85,6 +85,15 @@ func c02ShapeInit(r *lib.Rng, kind string) *shapeState {
 		if r.Chance(1, 2) {
 			add(&Target{Name: "dn", Kind: "genrule", Srcs: []string{"//p:usen"}, Outs: []string{"dn.out"}, Cmd: Cmd{Op: "concat"}})
 		}
+		// users inside the Trust proofs of C02_partial since the tools deepening: one that reads the NAMES of the tool outputs
+		// (restored from the cache with the names of the state it was stored in - the names never change in this shape) and
+		// one that does not mention $TOOLS (the tools only enter its cache key)
+		if r.Chance(1, 2) {
+			add(&Target{Name: "usenm", Kind: "genrule", Tools: append([]string{}, tools...), Outs: []string{"usenm.out"}, Cmd: Cmd{Op: "toolnames"}})
+		}
+		if r.Chance(1, 2) {
+			add(&Target{Name: "usec", Kind: "genrule", Srcs: []string{"u.txt"}, Tools: append([]string{}, tools...), Outs: []string{"usec.out"}, Cmd: Cmd{Op: "concat"}})
+		}
 	default:
 		panic("unknown C02 shape " + kind)
 	}
